@@ -3,7 +3,7 @@ NOT_APPLICABLE = {}
 CHECKS = {
  'C01': dict(engine='E1-lanes', category='model_checking', design_ref='DESIGN.md §2.1, §5 C01',
    technique='symbolic execution of the real LogicSim on z3 bit-vector lanes + SMT equivalence with an independent netlist oracle',
-   text='For every circuit of a stated corpus (all 33 primitives x pin patterns, hand-made shapes, seeded random DAGs, repo netlists; three structural styles) the real '
+   text='For every circuit of a stated corpus (all 33 primitives x pin patterns, hand-made shapes, seeded random DAGs, repo netlists; four structural styles incl. branch forks) the real '
         's_to_c/c_prop (both 2-valued copies)/c_to_s/cycle run once on symbolic bit lanes, so z3 decides "captured value = gate-by-gate netlist value" for ALL stimuli of all lanes, '
         'batch sizes {1,3,8,9,17}, cycle counts <= 3, default options and c_reuse+strip_forks. Circuit structure is enumerated, not symbolic - a bounded claim, which is the reachable level for object-graph code.',
    note='Trusted: oracle vlib/ref2.py, z3, numpy object-array dispatch. Bounds: corpus sizes/limits in evidence; explicitly sized kinds with trailing open pins excluded; cycles <= 3.'),
@@ -11,7 +11,7 @@ CHECKS = {
    technique='symbolic execution of the real LogicSim (m=4, m=8) on z3 bit-vector planes + SMT equivalence with the documented algebra and X-soundness queries',
    text='Per corpus circuit one symbolic run of the real 4-/8-valued c_prop with all three bit planes of every input lane symbolic; z3 decides (i) every captured value equals the '
         'gate-by-gate composition of the documented operators modulo {X,-}, (ii) every non-unknown result component equals the 2-valued netlist value of ANY 0/1 completion of the unknown inputs, '
-        '(iii) known inputs give known outputs. Structure enumerated (bounded corpus), values exhaustive by solver.',
+        '(iii) known inputs give known outputs. Also under c_reuse / strip_forks and for a second propagation on the same simulator object (both stimuli symbolic). Data-dependent fast paths in the operators fork (E2). Structure enumerated (bounded corpus), values exhaustive by solver.',
    note='Trusted: vlib/specmv.py + vlib/ref2.py oracles, z3. MUX21 spec = OR(AND(i0,NOT s),AND(i1,s)). s_ppo_to_ppi with X/- in 8-valued mode outside the statement.'),
  'C12': dict(engine='E1-lanes + E2-symx', category='model_checking', design_ref='DESIGN.md §2.2, §5 C12',
    technique='bp operators: one-path symbolic execution + z3; mv operators: forking symbolic execution of the real numpy code on symbolic codes, every path replayed on real uint8 arrays',
@@ -23,7 +23,7 @@ CHECKS = {
    text='For every line of every small-corpus circuit and every logic (2/4/8) the real c_prop runs symbolically with a callback overwriting that line with fresh variables; z3 decides that s[1] equals the '
         'oracle of the circuit with that line cut, for all stimuli and all injected values; untouched callback = no callback. The data-independent call trace (one call per evaluated line, in op order, '
         'Line identity, writable view of the fresh values) is compared on one concrete run per (circuit, logic).',
-   note='Trusted: ref2/specmv oracles, z3. Default options only (with strip_forks branch lines alias their stem). Ops writing the scratch slot (unconnected output) have no Line and are skipped.'),
+   note='Trusted: ref2/specmv oracles, z3. Every third hand-made shape also under c_reuse / strip_forks (injection on a stripped branch = injection on its stem). Ops writing the scratch slot (unconnected output) have no Line and are skipped.'),
  'C19': dict(engine='E1-lanes', category='model_checking', design_ref='DESIGN.md §5 C19',
    technique='exhaustive pin-table comparison against an independent re-parse of the declarations + symbolic execution of every implementation circuit through the real LogicSim, z3 equality with data-sheet functions',
    text='All ~1000 names of the five libraries: each name expands, pin indices/directions follow the declaration order and the implementation circuit (finite, exhaustive). Every distinct combinational '
@@ -43,12 +43,12 @@ CHECKS = {
  'C04': dict(engine='E2-symx', category='model_checking', design_ref='DESIGN.md §4, §5 C04',
    technique='forking symbolic execution of the real _wave_eval with product runs (t vs t+delta, x2, x1/2); z3 validity of window membership, exact shift/scale, strict monotonicity per path; STA windows end-to-end',
    text='Kernel lemmas on all paths of the real kernel: each emitted transition is an input transition plus one of that line\'s delays (hence inside the static-timing window by induction), a symbolic shift delta of all inputs '
-        'shifts the output by exactly delta, scaling by 2 and 1/2 scales it, polarity-independent delays give strictly increasing timestamps. Static-timing windows are additionally checked end-to-end on small circuits.',
+        'shifts the output by exactly delta, scaling by 2 and 1/2 scales it, polarity-independent delays give strictly increasing timestamps. Static-timing windows are additionally checked end-to-end on small circuits, and the capture lemma (shared with C13) shows that s[4]/s[5] are the earliest/latest transition of the waveform whatever earlier propagations left behind its terminator.',
    note='Bounded as C03; shifts |delta| <= 500, power-of-two factors 2 and 1/2 only; exact real arithmetic stands for float32 on the dyadic grid named in the statement.'),
  'C05': dict(engine='E2-symx + E1-lanes', category='model_checking', design_ref='DESIGN.md §4 L-HAZ, §5 C05',
    technique='forking symbolic execution of the real _wave_eval against the result of the real LogicSim(m=8) for every abstract input tuple the stimulus shape conforms to; end-to-end runs of both simulators',
    text='For every primitive and every abstract input tuple over {0,1,R,F,P,N} (within the K bound) all paths of the real kernel with symbolic times/delays are explored: initial/final values agree with the 8-valued result and a '
-        'plain 0/1 result implies no transition at all. End-to-end: small circuits, stimuli over {0,1,R,F}, WaveSim and WaveSimCuda, options default / c_reuse / c_reuse+strip_forks.',
+        'plain 0/1 result implies no transition at all. End-to-end: small circuits, stimuli over {0,1,R,F}, WaveSim and WaveSimCuda, options default / c_reuse / c_reuse+strip_forks; the 0/1/R/F stimulus encoding (s_to_c, CPU and GPU) is proved from symbolic old slot contents; a second capture at a symbolic finite time leaves initial/final values untouched.',
    note='Bounded as C03. The gate-by-gate lifting (conformance is preserved) is a paper induction confirmed end-to-end; the schedule / memory-map glue obligations it relies on are re-discharged in this check.'),
  'C13': dict(engine='E2-symx', category='model_checking', design_ref='DESIGN.md §4 L-OVL/L-WSA, §5 C13',
    technique='forking symbolic execution of the real wave_capture_cpu/gpu (via c_to_s with symbolic capture time), of _wave_eval in product with capacity 64, and of propagation with symbolic integer accumulation weights',
